@@ -261,7 +261,13 @@ fn ask(g: &GameState, q: usize) -> u64 {
             for a in g.valid_actions_no_rep().iter() {
                 let c = g.take_action(a);
                 acc = mix64(acc ^ c.transposition_hash());
+                // what the successor offers (a successor made while its parent was being asked must
+                // behave like any other)
+                acc = mix64(acc ^ fp_str(&actions_text(&c.valid_actions())));
+                acc = mix64(acc ^ (c.can_pass(true) as u64 * 2 + c.is_terminal().is_some() as u64));
             }
+            let cl = g.clone();
+            acc = mix64(acc ^ fp_str(&actions_text(&cl.valid_actions())));
             acc
         }
         0 => fp_str(&actions_text(&g.valid_actions())),
@@ -326,6 +332,87 @@ fn same_object_run(state: &Arc<GameState>, threads: usize, reps: usize, first_qu
     let out = hs.into_iter().map(|h| h.join().unwrap_or((0xdead, 0))).collect();
     watch::close(gid);
     out
+}
+
+/// Fresh-object race: many never-queried copies of one state (copies made before the first query are as
+/// untouched as the original). For each copy in turn, one thread asks it for its action list - its very
+/// first query - while another thread clones it and expands it at the same instant, with a small,
+/// varying lag; what the clone and the successor offer is compared with what they offer when nothing
+/// runs alongside. Anything a state fills in lazily on first use is caught mid-way by the copy here.
+/// Returns the index of the first copy whose clone or successor answered differently.
+fn fresh_object_race(base: &GameState, step: Option<Action>, n: usize) -> Option<(usize, &'static str)> {
+    use std::sync::atomic::{AtomicUsize, Ordering};
+    let want_state = fp_str(&actions_text(&base.clone().valid_actions()));
+    let want_clone = want_state;
+    let want_child = step.map(|a| {
+        let c = base.clone().take_action(&a);
+        mix64(fp_str(&actions_text(&c.valid_actions())) ^ c.can_pass(true) as u64)
+    });
+    // (the queries above went to clones of `base`, not to `base` itself, and clones do not write back)
+    let objs: Arc<Vec<GameState>> = Arc::new((0..n).map(|_| base.clone()).collect());
+    // go = number of copies released so far, done = number of copies the asker is through with
+    let go = Arc::new(AtomicUsize::new(0));
+    let done = Arc::new(AtomicUsize::new(0));
+    let gid = watch::new_group(2, "fresh-object race");
+    let (o1, g1, d1) = (objs.clone(), go.clone(), done.clone());
+    let asker = std::thread::spawn(move || {
+        let _member = watch::enter(gid);
+        let mut bad = None;
+        for i in 0..o1.len() {
+            let mut spins = 0u32;
+            while g1.load(Ordering::Acquire) < i + 1 {
+                std::hint::spin_loop();
+                spins += 1;
+                if spins % 256 == 0 {
+                    std::thread::yield_now();
+                }
+            }
+            let got = fp_str(&actions_text(&o1[i].valid_actions()));
+            if got != want_state && bad.is_none() {
+                bad = Some((i, "the state itself"));
+            }
+            d1.store(i + 1, Ordering::Release);
+        }
+        bad
+    });
+    let (o2, g2, d2) = (objs.clone(), go.clone(), done.clone());
+    let copier = std::thread::spawn(move || {
+        let _member = watch::enter(gid);
+        let mut bad = None;
+        for i in 0..o2.len() {
+            // in step with the asker: copy number i is released when the asker is through with i - 1
+            let mut spins = 0u32;
+            while d2.load(Ordering::Acquire) < i {
+                std::hint::spin_loop();
+                spins += 1;
+                if spins % 256 == 0 {
+                    std::thread::yield_now();
+                }
+            }
+            g2.store(i + 1, Ordering::Release);
+            for _ in 0..((i * 7) % 160) {
+                std::hint::spin_loop();
+            }
+            // several copies in a row, so that one of them falls into the middle of the first query
+            let cls = [o2[i].clone(), o2[i].clone(), o2[i].clone(), o2[i].clone(), o2[i].clone(), o2[i].clone()];
+            let child = step.map(|a| o2[i].take_action(&a));
+            for cl in cls.iter() {
+                if fp_str(&actions_text(&cl.valid_actions())) != want_clone && bad.is_none() {
+                    bad = Some((i, "a clone made while the state was asked for the first time"));
+                }
+            }
+            if let (Some(c), Some(w)) = (child, want_child) {
+                if mix64(fp_str(&actions_text(&c.valid_actions())) ^ c.can_pass(true) as u64) != w && bad.is_none() {
+                    bad = Some((i, "a successor made while the state was asked for the first time"));
+                }
+            }
+        }
+        bad
+    });
+    let a = asker.join().ok().flatten();
+    let b = copier.join().ok().flatten();
+    watch::close(gid);
+    a.or(b)
 }
 
 fn expand(g: &GameState, depth: u8, t: &mut Transcript) {
@@ -819,6 +906,8 @@ fn check_parts(start: &gen::Start, actions: &[Action], progs: &[Prog], aux: u64,
             st.bump("sibling_scenarios");
             // same-object scenario on the deepest of these states and on a state at the last step of the turn
             let mut targets: Vec<Vec<Action>> = vec![];
+            // (the first path is one for which the repetition rules withhold something, if there is any)
+            targets.push(paths[0].clone());
             if let Some(p) = paths.iter().max_by_key(|p| p.len()) {
                 targets.push(p.clone());
                 // extend to step 3 through rule-only steps that stay inside the turn
@@ -860,6 +949,24 @@ fn check_parts(start: &gen::Start, actions: &[Action], progs: &[Prog], aux: u64,
                 }
             }
             st.bump("same_object_scenarios");
+            // fresh-object race on the first target (a state for which something is withheld, if any) and on
+            // its parent
+            for cut in [0usize, 1] {
+                let path = &targets[0];
+                if path.len() < cut + 1 {
+                    continue;
+                }
+                let upto = path.len() - cut;
+                let mut g = build(mk().unwrap()).unwrap();
+                for a in path[..upto].iter() {
+                    g = g.take_action(a);
+                }
+                // the next step, known from the path or from a scratch copy
+                let step = if cut == 1 { Some(path[upto]) } else { g.clone().valid_actions_no_rep().into_iter().find(|a| matches!(a, Action::Move(..))) };
+                let r = guard(|| fresh_object_race(&g, step, 300)).map_err(|p| Fail::new("C18:concurrent_panic", p))?;
+                ensure!(r.is_none(), "C18:transcript", "fresh-object race: copy number {} of a never-queried state - {} offers something else than it does when nothing runs alongside; state reached by {}", r.map(|x| x.0).unwrap_or(0), r.map(|x| x.1).unwrap_or(""), actions_text(&path[..upto]));
+            }
+            st.bump("fresh_object_races");
             let sp = guard(|| {
                 paths.iter().filter(|p| {
                     let mut g = sroot.clone();
